@@ -517,11 +517,14 @@ def one(ctx, item):
 def run(ctx):
     import check
     q = ctx.quick
-    items = [('sc', i) for i in range(160 if q else 1000)]
+    items = [('sc', i) for i in range(160 if q else 800)]
     if not q:
-        items += [('recover', i) for i in range(40)]
+        items += [('recover', i) for i in range(30)]
     ctx.rng.shuffle(items)
     check.pmap(ctx, 'props.c19', 'one', items, case_timeout=300 if q else 900)
+
+    # correspondence with the Lean bookkeeping model (driver command), see props/corr_models.py
+    check.pmap(ctx, 'props.corr_models', 'one_infer', list(range(16 if q else 120)), case_timeout=300)
 
 
 def replay(ctx, payload):
